@@ -33,7 +33,7 @@ RULE = ("each run (a fresh process image) draws a random Hermitian system with e
         "quantities, band selections, k_batch, user tabulators and serial-or-simulated-ray evaluation; distinct = hash of "
         "(system, path, sequence of calls with their arguments, ray schedule); non-trivial = history of at least 2 calls")
 PROBES = ["path_calls", "point_calls", "parallel_path_call", "band_selection_call", "call_after_band_selection", "user_tabulator_call",
-          "path_with_break", "path_points_checked", "path_construction_checked", "k_batch_smaller_than_path", "two_systems"]
+          "path_with_break", "path_points_checked", "path_construction_checked", "k_batch_smaller_than_path", "two_systems", "two_paths", "unsorted_band_selection"]
 REAL = ["evaluate_k / evaluate_k_path", "calculators.tabulate (Tabulator, TabulatorAll, module-global named quantities)",
         "run_grid.run / process on a Path", "Path.from_nodes / get_K_list / get_refined / getKline", "KpointBZpath", "Data_K_R (k-list and FFT)",
         "TABresult.__add__/self_to_path/get_data"]
@@ -173,7 +173,14 @@ def _simulate(dec, rec, tier, scr):
     path, nodes, labels, nk = draw_path(dec, system)
     if path.breaks:
         rec.fire("path_with_break")
-    K = np.array(path.K_list)
+    # a second path over the same points (refined by 2): calls may use either, so that nothing remembered from one path
+    # (or one batching) can be served to the other
+    paths = [path]
+    if dec.chance("path/second", 1, 2):
+        paths.append(path.get_refined(factor=2))
+        rec.fire("two_paths")
+    Ks = [np.array(p.K_list) for p in paths]
+    K = Ks[0]
     sample = dict(num_wann=num_wann, nodes=nodes, nk=nk, npoints=len(K), breaks=list(path.breaks), history=[])
     base = dict(sample=sample, counters={}, real=REAL, stub=STUB, vtime=0.0)
     hist = [num_wann, nodes, nk]
@@ -190,8 +197,8 @@ def _simulate(dec, rec, tier, scr):
     if v:
         return finish(v)
     # ---------------------------------------------------------------- reference first
-    refs = [reference(sy, K, QNAMES) for sy in systems]
-    scales = [{q: max(1e-12, float(np.max(np.abs(a)))) for q, a in r.items()} for r in refs]
+    refs = [[reference(sy, Kp, QNAMES) for sy in systems] for Kp in Ks]          # refs[path][system]
+    scales = [{q: max(1e-12, float(np.max(np.abs(a)))) for q, a in r.items()} for r in refs[0]]
 
     clock = VClock()
     ray = SimRay(dec, rec, clock)
@@ -201,18 +208,26 @@ def _simulate(dec, rec, tier, scr):
         for step in range(nops):
             kind = ["path", "point"][dec.pick(f"hist/{step}/kind", [3, 2])]
             isys = dec(f"hist/{step}/sys", len(systems))
-            system, ref, scale = systems[isys], refs[isys], scales[isys]
-            which = f"system {'AB'[isys]}, " if two else ""
+            ip = dec(f"hist/{step}/path", len(paths))
+            path, K = paths[ip], Ks[ip]
+            system, ref, scale = systems[isys], refs[ip][isys], scales[isys]
+            which = (f"system {'AB'[isys]}, " if two else "") + (f"path {ip} ({len(K)} points), " if len(paths) > 1 else "")
             nq = 1 + dec(f"hist/{step}/nq", 3)
             qs = sorted({QNAMES[dec(f"hist/{step}/q/{i}", len(QNAMES))] for i in range(nq)})
-            sel = dec.pick(f"hist/{step}/bands", [3, 2, 1])
+            sel = dec.pick(f"hist/{step}/bands", [3, 2, 1, 1, 1])
             if sel == 0:
                 ibands = None
             elif sel == 1:
                 ibands = sorted({dec(f"hist/{step}/ib/{i}", num_wann) for i in range(1 + dec(f"hist/{step}/nb", num_wann))})
-            else:
+            elif sel == 2:
                 ibands = [num_wann - 1]
-            want_b = list(range(num_wann)) if ibands is None else list(ibands)
+            elif sel == 3:      # unsorted, non-contiguous: the values must come back in the order asked for
+                ibands = [num_wann - 1, 0] if num_wann > 2 else [1, 0]
+                rec.fire("unsorted_band_selection")
+            else:               # a numpy array instead of a list
+                ibands = np.array(sorted({dec(f"hist/{step}/ib/{i}", num_wann) for i in range(1 + dec(f"hist/{step}/nb", num_wann))}))
+            want_b = list(range(num_wann)) if ibands is None else [int(b) for b in ibands]
+            ibands_desc = None if ibands is None else (f"array({want_b})" if isinstance(ibands, np.ndarray) else want_b)
             if band_selected_before:
                 rec.fire("call_after_band_selection")
             if kind == "path":
@@ -225,11 +240,11 @@ def _simulate(dec, rec, tier, scr):
                     stub = zoo.StubTab(100 + step, nband=num_wann, rank=1)
                     tabs = {"user": stub}
                     rec.fire("user_tabulator_call")
-                desc = (f"call {step}: evaluate_k_path({which}quantities={qs}, ibands={ibands}, parallel={parallel}, k_batch={k_batch}"
+                desc = (f"call {step}: evaluate_k_path({which}quantities={qs}, ibands={ibands_desc}, parallel={parallel}, k_batch={k_batch}"
                         f"{', tabulators={user: stub}' if user_tab else ''})")
-                sample["history"].append(dict(call="evaluate_k_path", system="AB"[isys], quantities=qs, ibands=ibands, parallel=parallel,
+                sample["history"].append(dict(call="evaluate_k_path", system="AB"[isys], quantities=qs, ibands=ibands_desc, parallel=parallel,
                                               k_batch=k_batch, user_tabulator=user_tab))
-                hist.append(("path", isys, tuple(qs), tuple(want_b), parallel, k_batch, user_tab))
+                hist.append(("path", isys, ip, tuple(qs), tuple(want_b), parallel, k_batch, user_tab))
                 rec.fire("path_calls")
                 if parallel:
                     rec.fire("parallel_path_call")
@@ -268,9 +283,12 @@ def _simulate(dec, rec, tier, scr):
             else:
                 ik = dec(f"hist/{step}/ik", len(K))
                 k = K[ik]
-                desc = f"call {step}: evaluate_k({which}k=path point {ik} {k.tolist()}, quantities={qs}, iband={ibands})"
-                sample["history"].append(dict(call="evaluate_k", system="AB"[isys], point=ik, quantities=qs, iband=ibands))
-                hist.append(("point", isys, ik, tuple(qs), tuple(want_b)))
+                if ibands is not None and len(want_b) == 1 and dec.chance(f"hist/{step}/int_band", 1, 2):
+                    ibands = int(want_b[0])          # a single int is a documented input form of evaluate_k
+                    ibands_desc = ibands
+                desc = f"call {step}: evaluate_k({which}k=path point {ik} {k.tolist()}, quantities={qs}, iband={ibands_desc})"
+                sample["history"].append(dict(call="evaluate_k", system="AB"[isys], point=ik, quantities=qs, iband=ibands_desc))
+                hist.append(("point", isys, ip, ik, tuple(qs), tuple(want_b)))
                 rec.fire("point_calls")
                 try:
                     with zoo.quiet():
